@@ -87,10 +87,14 @@ func vpGenVersions(rng *mrand.Rand, n int, emails bool) []vpRelVersion {
 
 func vpRenderVersion(v vpRelVersion, emails bool) string {
 	if !v.good {
+		// well-formed entries first (zed is in no good version, fay gets a password of its own), then the line that does not parse:
+		// nothing of a version that fails to parse may ever be in force, neither now nor after the next good reload
 		if emails {
-			return "ann@example.com\n\"unterminated quote\nbob@example.com\n"
+			return "zed@example.com\nann@example.com\n\"unterminated quote\nbob@example.com\n"
 		}
-		return "ann:{SHA}x:extra-field\nnot-a-valid-line\n"
+		d := sha1.Sum([]byte("p1"))
+		h := base64.StdEncoding.EncodeToString(d[:])
+		return "zed:{SHA}" + h + "\nfay:{SHA}" + h + "\nann:{SHA}x:extra-field\nnot-a-valid-line\n"
 	}
 	var sb strings.Builder
 	for _, u := range v.users {
@@ -166,7 +170,7 @@ func vpRunReload(emails bool, nVersions, nValidators int, rng *mrand.Rand, dir s
 	stop := make(chan struct{})
 	var wg sync.WaitGroup
 	var vid int64
-	universeK := []string{"ann", "bob", "cyd", "dan", "eve", "fay"}
+	universeK := []string{"ann", "bob", "cyd", "dan", "eve", "fay", "zed"}
 	for g := 0; g < nValidators; g++ {
 		wg.Add(1)
 		go func(g int) {
